@@ -1,4 +1,4 @@
-import PoolProofs.C16LemmasCancel
+import PoolProofs.C16LemmasLive
 /-!
 C16 — sidecar auto-negotiation is safe under any delivery order and restart.
 
@@ -184,10 +184,8 @@ theorem C16_cancel_ends_both (s : Sys) (h : Reachable s) (prov : Bool) :
     · rfl
     · have := (hA.pal hx).2; unfold pRel at this; omega
 
-/-- Proved part (a): the finalization branch (own cancellation, or the hand-off after the other side's cancel
-message) persists the final state and ENDS the loop (`C16_finalization_is_final` above); and a side whose loop has
-ended has no enabled handler: no packet, no finalization, no delivery is ever handled again — only a restart, which
-finds a terminal ticket and starts nothing (`restartParty`). -/
+/-- a side whose loop has ended has no enabled handler: no packet, no finalization, no delivery is ever handled again
+— only a restart, which finds a terminal ticket and starts nothing (`C16_terminal_ticket_not_resumed`). -/
 theorem C16_ended_side_disabled (s : Sys) (prov : Bool) (st : Nat)
     (h : (getParty s prov).alive = false) :
     apply s (.proc prov) = none ∧ apply s (.fin prov) = none ∧ apply s (.finalize prov st) = none ∧
@@ -245,32 +243,40 @@ theorem C16_real_driver_never_reports_exists (b : Bool) (t : Ticket) :
 
 /-! ## (5) liveness without restarts -/
 
-def bothExpecting (s : Sys) : Bool :=
-  s.p.alive && s.p.cur == sExpecting && s.r.alive && s.r.cur == sExpecting
-
-/-- only deliveries (of any sent ticket, again and again), handler steps and receive errors -/
-def noRestartAct : Act → Bool
-  | .deliver _ _ | .proc _ | .recvErr _ => true
-  | _ => false
-
 def ReachableNR (s : Sys) : Prop := ∃ as, as.all noRestartAct = true ∧ run init as = some s
 
-/-- FULL statement: from every state reachable without restarts/cancellations a finite sequence of deliveries and
-handler steps reaches both-expecting, and both-expecting is stable under such steps. -/
-def C16_progress_full_statement : Prop :=
-  (∀ s, ReachableNR s → ∃ as s', as.all noRestartAct = true ∧ run s as = some s' ∧ bothExpecting s' = true) ∧
-  (∀ s, ReachableNR s → bothExpecting s = true → ∀ a s', noRestartAct a = true → apply s a = some s' →
-    bothExpecting s' = true)
+/-- When neither party is restarted (and nobody cancels) – only deliveries of any sent ticket, in any order and any
+number of times, handler steps and receive errors happen – then from EVERY state reachable that way a finite
+sequence of deliveries and handler steps reaches both-expecting, and both-expecting is stable under all such steps
+(so under fair delivery both parties reach and keep the expecting-channel state). Proof: the no-restart reachable
+states are characterised in closed form (`NRc`/`mk`: provider phase, recipient phase, what sits in the two
+packetChans, how often the ordered ticket was sent), shown closed under every such transition (`NR_closure`), and the
+delivery sequence is constructed phase by phase (`NR_progress`). -/
+theorem C16_progress :
+    (∀ s, ReachableNR s → ∃ as s', as.all noRestartAct = true ∧ run s as = some s' ∧ bothExpecting s' = true) ∧
+    (∀ s, ReachableNR s → bothExpecting s = true → ∀ a s', noRestartAct a = true → apply s a = some s' →
+      bothExpecting s' = true) := by
+  have reach : ∀ s, ReachableNR s → ∃ c, NRok c ∧ s = mk c := by
+    intro s ⟨as, hall, hrun⟩
+    unfold run at hrun
+    rw [finReturns_true, init_eq_mk] at hrun
+    exact NR_run as _ NRok_init hall s hrun
+  constructor
+  · intro s hs
+    obtain ⟨c, hok, rfl⟩ := reach s hs
+    obtain ⟨as, c', hall, hrun, hok', hp, hr⟩ := NR_progress c hok
+    refine ⟨as, mk c', hall, ?_, (bothExpecting_mk c' hok').2 ⟨hp, hr⟩⟩
+    unfold run; rw [finReturns_true]; exact hrun
+  · intro s hs hb a s' hn ha
+    obtain ⟨c, hok, rfl⟩ := reach s hs
+    unfold apply at ha
+    rw [finReturns_true] at ha
+    exact NR_stable c hok ((bothExpecting_mk c hok).1 hb) a hn s' ha
 
 def fairRun : List Act := happyP ++ [.deliver false 0, .proc false]
 
-/-- Proved part (NOT the full statement): the fair run from the initial state reaches both-expecting without any
-restart, and re-delivering every ticket sent so far — in both directions, incl. the re-sent ordered ticket the
-first re-delivery produces — leaves both sides expecting. The general statement (every no-restart reachable state)
-is checked by the harness' fair-delivery runs on the real code only. -/
-theorem C16_progress_partial :
-    fairRun.all noRestartAct = true ∧
-    (run init fairRun).map bothExpecting = some true ∧
+-- non-vacuity: the fair run is a no-restart run and ends both-expecting; duplicates keep it there
+example : fairRun.all noRestartAct = true ∧ (run init fairRun).map bothExpecting = some true ∧
     (run init (fairRun ++ [.deliver true 0, .proc true, .deliver false 0, .proc false, .deliver false 1,
       .proc false, .recvErr true, .recvErr false])).map bothExpecting = some true := by decide
 
